@@ -163,7 +163,7 @@ func marshalArg(v ssa.Value) (arg ssa.Value, call *ssa.Call, ok bool) {
 // isFieldLoadOf: v is a load of field `name` of the kv object recv.
 func isKVFieldLoad(v ssa.Value, name string) bool {
 	fr, _, ok := eng.LoadedField(v)
-	return ok && fr.Is("db", "kv", name)
+	return ok && isKVRole(curProg, fr, name)
 }
 
 // R-C03-2
@@ -185,9 +185,20 @@ func c03SaveContentRule(c *eng.Ctx, k *kvAnalysis, rule string) {
 			site := eng.CallStr(&call.Call)
 			want := "data = Marshal(wrapped{Version: schema const, DEK: kv.dekRaw, DB: kv.dekCipher.Encrypt(Marshal(persist{Secrets: kv.secrets}), aeadContextDB(schema const))})"
 			c.Check(isKVFieldLoad(call.Call.Args[0], "path"), rule, f, in.Pos(), site+" [target]", "target is kv.path", "target is "+eng.ValStr(call.Call.Args[0]))
-			arg, _, ok := marshalArg(call.Call.Args[1])
+			data := call.Call.Args[1]
+			arg, _, ok := marshalArg(data)
+			for depth := 0; !ok && depth < 3; depth++ {
+				// the document may be built by a helper method of the same kv
+				inner, hc := eng.ThroughHelper(data, func(g *ssa.Function) bool { return eng.FuncPkg(g) == c.P.TypesPkg("db") })
+				if inner == nil || len(hc.Call.Args) == 0 || len(f.Params) == 0 || eng.Origin(hc.Call.Args[0]) != ssa.Value(f.Params[0]) {
+					break
+				}
+				data = inner
+				f = hc.Call.StaticCallee()
+				arg, _, ok = marshalArg(data)
+			}
 			if !ok {
-				c.Undecided(rule, f, in.Pos(), site, "data argument is not directly the result of json.Marshal: "+eng.ValStr(call.Call.Args[1]))
+				c.Undecided(rule, f, in.Pos(), site, "data argument is not the result of json.Marshal (directly or through a helper of the same kv): "+eng.ValStr(call.Call.Args[1]))
 				return
 			}
 			fields, al, ok := eng.LiteralFields(eng.Origin(arg))
@@ -346,15 +357,23 @@ func c03Wire(c *eng.Ctx, k *kvAnalysis) {
 		for _, r := range eng.Returns(f) {
 			rv := eng.RetVals(r)
 			o := eng.OriginConv(rv[0])
-			if call, isCall := o.(*ssa.Call); isCall && eng.CalleeIs(&call.Call, "fmt", "Sprintf") {
-				fs, isC := eng.ConstString(call.Call.Args[0])
+			call, isCall := o.(*ssa.Call)
+			fmtArgs := []ssa.Value(nil)
+			switch {
+			case isCall && eng.CalleeIs(&call.Call, "fmt", "Sprintf"):
+				fmtArgs = call.Call.Args
+			case isCall && eng.CalleeIs(&call.Call, "fmt", "Appendf") && eng.IsNilConst(eng.Origin(call.Call.Args[0])):
+				fmtArgs = call.Call.Args[1:] // appended to nil: the same bytes as []byte(Sprintf(...))
+			}
+			if fmtArgs != nil {
+				fs, isC := eng.ConstString(fmtArgs[0])
 				pa := eng.Path{Blocks: []*ssa.BasicBlock{call.Block()}}
-				el, _ := pa.SliceElems(call.Call.Args[1])
+				el, _ := pa.SliceElems(fmtArgs[1])
 				argOK := len(el) == 1 && eng.Origin(el[0]) == f.Params[0]
 				if isC && fs == want && argOK {
 					ok = true
 				} else {
-					detail = "format " + fs + " args " + eng.ValStr(call.Call.Args[1])
+					detail = "format " + fs + " args " + eng.ValStr(fmtArgs[1])
 				}
 			} else {
 				detail = "returns " + eng.ValStr(rv[0])
@@ -469,7 +488,7 @@ func c03LoadedState(c *eng.Ctx, k *kvAnalysis, rule string) {
 				c.Undecided(rule, f, in.Pos(), "kv literal", "cannot enumerate fields")
 				return
 			}
-			sv := fields["secrets"]
+			sv := fields[kvField(c.P, "secrets")]
 			fr, base, isF := eng.LoadedField(sv)
 			site := "kv{secrets: " + eng.ValStr(sv) + "}"
 			if !isF || !fr.Is("db", "persist", "Secrets") {
